@@ -452,7 +452,8 @@ structure TD where
   /-- peers whose `runPeer` is blocked in `acceptRPC`; transport open / closed -/
   sO : Nat := 0
   sC : Nat := 0
-  /-- peers whose `runPeer` left the group (`done()`) and has not yet deleted the map entry -/
+  /-- peers whose `runPeer` left the group (`done()`) or was refused by it, and has not yet deleted
+  the map entry -/
   un : Nat := 0
   /-- connections that are no longer in the map, not owned by any thread, and still open -/
   leaked : Nat := 0
@@ -490,14 +491,15 @@ def TD.step (fixed : Bool) (s : TD) : TDStep → Option TD
   | .peerAdd true =>
     if 0 < s.aO then
       if s.tgClosed then
-        -- refused: removed from the map; pinned code leaves the transport open
-        if fixed then some { s with aO := s.aO - 1 }
-        else some { s with aO := s.aO - 1, leaked := s.leaked + 1 }
+        -- refused: `runPeer` returns at once and will delete the map entry (`peerRemove`); the
+        -- repaired code closes the transport on the way, the pinned code leaves it open
+        if fixed then some { s with aO := s.aO - 1, un := s.un + 1 }
+        else some { s with aO := s.aO - 1, un := s.un + 1, leaked := s.leaked + 1 }
       else some { s with aO := s.aO - 1, sO := s.sO + 1, wg := s.wg + 1 }
     else none
   | .peerAdd false =>
     if 0 < s.aC then
-      if s.tgClosed then some { s with aC := s.aC - 1 }
+      if s.tgClosed then some { s with aC := s.aC - 1, un := s.un + 1 }
       else some { s with aC := s.aC - 1, sC := s.sC + 1, wg := s.wg + 1 }
     else none
   | .peerErr =>
@@ -639,6 +641,15 @@ def HOL.canStep (s : HOL) : Bool :=
 def wireOK (n : Nat) (w : List Frame) : Bool :=
   (List.range n).all fun k =>
     w.count (.id k) = 1 && w.count (.req k) = 1 && w.idxOf (.id k) < w.idxOf (.req k)
+
+/-- the frames of `t` requests numbered from `c`, issued one after the other: each request frame
+directly behind its id frame -/
+def seqFrom : Nat → Nat → List Frame
+  | _, 0 => []
+  | c, t + 1 => .id c :: .req c :: seqFrom (c + 1) t
+
+/-- the wire of a peer that issues `n` requests one after the other -/
+def seqWire (n : Nat) : List Frame := seqFrom 0 n
 
 /-! The same connection when the peer issues its requests ONE AFTER THE OTHER (each request frame
 directly follows its id frame on the wire).  RPCs then complete their input in order, so the
